@@ -59,6 +59,20 @@ def strategy(tier, flags):
     return st.one_of(ll1_like(), rnd, ll1_like()).filter(lambda d: len(d["prods"]) > 0).map(lambda d: {"g": d})
 
 
+EXHAUSTIVE_SCOPE = {
+    "thorough": "the useful part of every grammar over variables {S,A}, terminals {a,b}, with 1-3 distinct productions "
+                "with bodies of length <=2 (scope of C08; grammars with an empty useful part are skipped)",
+}
+
+
+def exhaustive(tier, shard, nshards):
+    from props import c08
+    for c in c08.exhaustive(tier, shard, nshards):
+        d = reduce_useful(c["g"])
+        if d["prods"]:
+            yield {"g": d}
+
+
 def run_case(case):
     from pyformlang.cfg import Variable, Terminal, Epsilon
     from pyformlang.cfg.llone_parser import LLOneParser
